@@ -1,11 +1,14 @@
 pub mod c09;
 pub mod c10;
+pub mod c11;
+pub mod c18;
 pub mod c19;
+pub mod c20;
 
 use crate::engine::Engine;
 
 pub fn all() -> Vec<Box<dyn Engine>> {
-    vec![Box::new(c09::C09), Box::new(c10::C10), Box::new(c19::C19)]
+    vec![Box::new(c09::C09), Box::new(c10::C10), Box::new(c11::C11), Box::new(c18::C18), Box::new(c19::C19), Box::new(c20::C20)]
 }
 
 /// Debug aid: generate worlds and print every template that fails to parse.
